@@ -272,10 +272,10 @@ class SReal:
         raise Unsupported("int() of symbolic value reached C level (missing shim)")
 
     def __floor__(self):
-        return cur().concretize_int(z3.ToInt(lift_real(self)), 'floor')
+        return cur().concretize_floor(lift_real(self))
 
     def __ceil__(self):
-        return -cur().concretize_int(z3.ToInt(-lift_real(self)), 'ceil')
+        return -cur().concretize_floor(-lift_real(self))
 
     def __round__(self, n=None):
         return sround(self, n)
@@ -325,6 +325,10 @@ class SInt(SReal):
 
     def __index__(self):
         return cur().concretize_int(self.e, 'index')
+
+    def __hash__(self):
+        # dict/set key: concretise by fork (value is then pinned on the path)
+        return hash(cur().concretize_int(self.e, 'hash'))
 
     def __floor__(self):
         return self
@@ -475,6 +479,7 @@ class Ctx:
         self.notes = {}
         self.relaxed = []
         self.extra_constraints = []
+        self.floor_memo = {}
 
     # -- solver helpers
     def _check(self, *extra):
@@ -721,6 +726,46 @@ class Ctx:
         self.decisions.append(('c', excluded, val))
         self.assume(e == val)
         return int(val)
+
+    def concretize_floor(self, e):
+        """fork over the feasible values of floor(e) for a Real term e.  The
+        path condition records v <= e < v+1 (pure real constraints: keeps
+        later queries inside QF_NRA) instead of ToInt(e) == v."""
+        v = val_of(e)
+        if v is not None:
+            return _math.floor(v)
+        key = z3.simplify(e).sexpr()
+        if key in self.floor_memo:
+            return self.floor_memo[key]
+        if self.pos < len(self.prefix):
+            ent = self.prefix[self.pos]
+            self.pos += 1
+            if ent[0] != 'f':
+                raise RuntimeError("non-deterministic replay (expected floor, got %r)" % (ent,))
+            excluded, val = ent[1], ent[2]
+        else:
+            excluded, val = (), None
+            self.pos += 1
+        for x in excluded:
+            self.assume(z3.Or(e < x, e >= x + 1))
+        if val is None:
+            r, m = self._check()
+            if r == z3.unsat:
+                raise Abort()
+            if r == z3.unknown:
+                self.ex.stats.reasons.append('unknown at floor concretisation')
+                raise Budget('unknown at floor')
+            ev = z3_to_py(m.eval(e, model_completion=True))
+            val = _math.floor(ev)
+            if len(excluded) + 1 >= self.ex.concretize_cap:
+                self.ex.stats.reasons.append('concretisation cap hit (floor)')
+                self.ex.cap_hit = True
+            else:
+                self.alternatives.append(self.decisions + [('f', excluded + (val,), None)])
+        self.decisions.append(('f', excluded, val))
+        self.assume(z3.And(e >= val, e < val + 1))
+        self.floor_memo[key] = val
+        return val
 
     # -- claims
     def reachable(self):
